@@ -6,6 +6,7 @@ import PMV.Driver.Strings
 import PMV.Driver.Rename
 import PMV.Driver.Minify
 import PMV.Driver.PyCore
+import PMV.Driver.Exports
 open PMV
 
 def dispatch (cmd : String) (args : List Sexp) : Option String :=
@@ -26,6 +27,7 @@ def dispatch (cmd : String) (args : List Sexp) : Option String :=
   | "rename.applyast" => Driver.PyCore.renameApply args
   | "min.applyast" => Driver.PyCore.minApply args
   | "min.full" => Driver.PyCore.minFull args
+  | "exports.findall" => Driver.Exports.findAllCmd args
   | "hoist.place" => Driver.Rename.hoistPlace args
   | "rename.assign" => Driver.Rename.assignCmd args
   | "ministring" => Driver.Strings.ministring args
